@@ -48,6 +48,11 @@ def main():
         if os.path.exists(demo):
             # demonstrations refer to their scratch worktree only through PYTHONPATH
             shutil.copy(demo, os.path.join(dst, 'demo.py'))
+            # helper modules the demonstrations import (anything else that is a .py file next to them)
+            import glob as _glob, re as _re
+            for extra in _glob.glob(os.path.join(os.path.dirname(demo), '*.py')):
+                if not _re.fullmatch(r'demo\d+\.py', os.path.basename(extra)):
+                    shutil.copy(extra, os.path.join(dst, os.path.basename(extra)))
         m = re.search(rf'(?is)(#+\s*patch\s*{n}.*?)(?=\n#+\s*patch\s*{n + 1}|\Z)', notes)
         meta = {
             'id': sid, 'property': a.prop, 'demo': 'demo.py' if os.path.exists(demo) else None,
